@@ -1,6 +1,6 @@
 (* C02 — Rendered SQL is one confined boolean expression; user text only in literals.  (scanner-level lemmas; see DESIGN 6/C02) *)
-Require Import Parser PgModel.
-Require PgQuote PgIdent.
+Require Import Parser PgModel SqlFrag.
+Require PgQuote PgIdent SqlParse SqlSemProof.
 From Coq Require Import List String Ascii.
 Import ListNotations.
 
@@ -18,5 +18,14 @@ Theorem C02_field_name_is_one_identifier : forall (c0 : ascii) (v rest : list as
   next (""""%char :: (c0 :: v) ++ """"%char :: rest) = Some (TIdent (truncate_ident (c0 :: v)), rest).
 Proof. exact PgIdent.ident_roundtrip. Qed.
 
+(* grammar level, for every tree of the filterable fragment (Spec/SqlFrag.tr; any depth): the token sequence of its SQL is
+   accepted by PostgreSQL's expression grammar as ONE expression, and that expression is built only from AND/OR/NOT,
+   comparisons, IN, SIMILAR TO, column references and constants (SqlFrag.allowed: no unary or arithmetic operator, no other
+   node kind; comments, separators and sub-selects are not tokens the scanner model lets through) *)
+Theorem C02_fragment_sql_is_one_confined_expression : forall (e : Parser.expr) (ts : list tok) (a : ast),
+  tr e = Some (ts, a) -> pg_parse ts = Some a /\ allowed a = true.
+Proof. intros e ts a T. split; [exact (SqlParse.tr_parses e ts a T)|exact (SqlSemProof.tr_allowed e ts a T)]. Qed.
+
 Print Assumptions C02_string_value_stays_in_its_literal.
+Print Assumptions C02_fragment_sql_is_one_confined_expression.
 Print Assumptions C02_field_name_is_one_identifier.
